@@ -500,7 +500,7 @@ impl Engine for ExtEngine {
             }
         }
         let _ = std::fs::remove_dir_all(&root);
-        Outcome { violation, nontrivial, steps: 1 + case.tensors.len() as u64, trace_hash: mix(&trace), executions: 1 }
+        Outcome { violation, nontrivial, steps: 1 + case.tensors.len() as u64, trace_hash: mix(&trace), executions: 1, ..Default::default() }
     }
 
     fn shrink(&self, case: &ExtCase) -> Vec<ExtCase> {
